@@ -139,7 +139,7 @@ def prop_final(case):
     ic = ac.make_ic(case)
     if ic.twoM == 0 or ic.S0 <= 0 or (case['mode'] == 'sets' and ic.SX0 <= 0):
         return Result([], classes=['singular'])
-    if case['mode'] == 'sets' and ic.SI0 <= 0:
+    if (case['mode'] == 'sets' and ic.SI0 <= 0) or (case['mode'] == 'rho' and not case['rho'] > 0):
         # no susceptible node has an infected neighbour (e.g. only isolated nodes are infected): the ODE stays where it is, while
         # Attack_rate_* is documented to return the root 'assuming an epidemic happens' - two different questions, nothing to compare
         return Result([], classes=['no-S-I-edge'])
